@@ -13,6 +13,8 @@ import ScyllaVerif.Proofs.PoolRefiller
 import ScyllaVerif.Props.C02
 import ScyllaVerif.Model.Retry
 import ScyllaVerif.Model.Exec
+import ScyllaVerif.Model.PoolReconnect
+import ScyllaVerif.Proofs.PoolReconnect
 /-!
 # C10 — when a connection dies every request in flight on it fails promptly; none hangs
 
@@ -499,6 +501,39 @@ theorem bad_header_breaks (c : Conn) (h : Inv c) (bytes : List UInt8) (eof : Boo
   ⟨reader_bad_header_broken c bytes eof w hbad,
    fun r hw => inv_broken_waiter _ (inv_reader h bytes eof) (reader_bad_header_broken c bytes eof w hbad) r hw⟩
 
+/-! ### chunks: a frame may arrive in pieces, with anything else happening in between (`Model/ConnIO.lean` `Wire`) -/
+
+/-- FRAME ALIGNMENT, for every interleaving of chunk arrivals (of any sizes: parts of a header, parts of a body,
+several frames at once), a close, and arbitrary events of the connection (submissions, cancellations, orphan
+notices, writes, answers routed, breaks): the bytes received so far are always a number of whole, exactly encoded
+frames followed by what is still buffered — the reader never loses, repeats or re-synchronises inside a frame. With
+`returned_frame_is_exact` this makes byte identity a statement about CHUNKED delivery. It rests on the one structural
+assumption written next to `Wire`: a partly received frame survives every other event (the read is never raced
+against another future and dropped). -/
+theorem wire_is_frame_aligned (evs : List WEv) :
+    ∃ fs, (wrun { c := Conn.init } evs).received = encodeAll fs ++ (wrun { c := Conn.init } evs).inbuf :=
+  aligned_run ⟨[], rfl⟩ evs
+
+/-- … and the connection's invariant (hence every theorem above) holds along any such history. -/
+theorem wire_inv (evs : List WEv) : Inv (wrun { c := Conn.init } evs).c := inv_wrun Inv.init evs
+
+/-- How the response bytes are cut into chunks does not matter: feeding `a`, then `b`, with nothing else happening in
+between, leaves exactly the state of feeding `a ++ b` at once. -/
+theorem chunking_is_irrelevant (a b : List UInt8) (c : Conn) (eof : Bool) :
+    reader (reader c a false).1 ((reader c a false).2 ++ b) eof = reader c (a ++ b) eof :=
+  reader_chunks a b c eof
+
+/-- non-vacuity: the answer to request 1 arrives in three pieces (cut inside the header and inside the body) while
+request 0 is abandoned and its orphan notice is processed in between: request 1 still gets exactly its frame, nothing
+is left in the buffer. -/
+example :
+    let f : Frame := ⟨0, 1, 0x08, [10, 20, 30, 40]⟩
+    let bs := encode f
+    let w := wrun { c := run Conn.init [.submit, .submit, .writerTake, .writerTake] }
+      [.bytes (bs.take 5), .conn (.cancel 0), .bytes ((bs.drop 5).take 6), .conn .orphanerStep, .bytes (bs.drop 11)]
+    w.inbuf = [] ∧ w.c.broken = false ∧ getCaller w.c.callers 1 = some (.delivered (.frame 1)) ∧
+      answerOf (run Conn.init [.submit, .submit, .writerTake, .writerTake]) [f] 1 = some f := by decide +kernel
+
 /-! ### which frames break the connection, precisely (`reader` 1637-1683) -/
 
 /-- A frame on a negative stream (`-1`: an event, no event sender in this configuration; `< -1`: reserved) is
@@ -577,8 +612,12 @@ theorem event_receiver_gone_breaks (eventOk : Frame → Bool) (ch : EvChan) (c :
   simp [hs, hb, hok, hcl]
 
 /-- The event channel is full: the reader blocks ON that frame — it and every byte after it (answers to requests,
-to keep-alives) stay unread, the connection state does not move. What ends this is the consumer making room, or —
-if it never does — the keep-alive timeout (`keepalive_silence_breaks`: no response reaches the probe). -/
+to keep-alives) stay unread, the connection state does not move. What ends this is the consumer making room. The
+keep-alive does NOT rescue a connection in this state as far as the ROUTER is concerned: the keepaliver's timeout
+makes the router's `select!` drop the parked reader and end (`keepalive_silence_breaks` - on such a connection the
+probe's answer stays unread behind the event, so the timeout does fire if keep-alive is configured; the control
+connection configures it like every connection); without keep-alive nothing in the connection ends the wait
+(`eof_does_not_break_a_parked_reader`). -/
 theorem full_event_channel_stalls_reader (eventOk : Frame → Bool) (ch : EvChan) (c : Conn) (hb : c.broken = false)
     (f : Frame) (hw : f.wf) (rest : List UInt8) (eof : Bool) (hs : f.stream = -1) (hok : eventOk f = true)
     (hopen : ch.closed = false) (hfull : ch.room = 0) :
@@ -623,6 +662,64 @@ example :
     let r := readerEv ok ⟨false, 1⟩ c bytes false
     r.2.2 = ⟨false, 0⟩ ∧ r.2.1 = encode ev ++ encode ⟨0, 0, 0x08, [7]⟩ ∧
       getCaller r.1.callers 0 = some .waiting := by decide +kernel
+
+/-! ### the reader-level guarantees of section 5, for a connection WITH an event sender -/
+
+/-- The invariant of the connection model holds along `readerEv` (so every statement of sections 1-3 that is
+about "a state satisfying `Inv`" applies to a connection with an event sender as well). -/
+theorem event_reader_keeps_invariant (eventOk : Frame → Bool) (ch : EvChan) (c : Conn) (h : Inv c)
+    (bytes : List UInt8) (eof : Bool) : Inv (readerEv eventOk ch c bytes eof).1 :=
+  inv_readerEv eventOk eof bytes.length bytes (Nat.le_refl _) ch c h
+
+/-- `eof_always_breaks` lifted, with its EXACT exception: once the peer has closed, the router of a connection with
+an event sender has ended and nobody is left waiting — UNLESS the reader is parked in `event_sender.send(..).await`
+on a full event channel (`Parked`: not broken, the next thing buffered is a well-formed event, the channel is open
+and has no room). A parked reader has not seen the EOF: it is not reading. -/
+theorem eof_breaks_unless_parked_on_events (eventOk : Frame → Bool) (ch : EvChan) (c : Conn) (h : Inv c)
+    (bytes : List UInt8) :
+    ((readerEv eventOk ch c bytes true).1.broken = true ∧
+      ∀ r, getCaller (readerEv eventOk ch c bytes true).1.callers r = some .waiting →
+        r ∈ (readerEv eventOk ch c bytes true).1.permits) ∨
+    Parked eventOk (readerEv eventOk ch c bytes true) := by
+  rcases readerEv_eof eventOk bytes.length bytes (Nat.le_refl _) ch c with hb | hp
+  · exact .inl ⟨hb, fun r hw => inv_broken_waiter _ (event_reader_keeps_invariant eventOk ch c h bytes true) hb r hw⟩
+  · exact .inr hp
+
+/-- With an event consumer that keeps up (room for every event the bytes can hold) the exception cannot occur:
+`eof_always_breaks` holds for the connection with an event sender. -/
+theorem eof_breaks_when_events_are_consumed (eventOk : Frame → Bool) (ch : EvChan) (c : Conn) (h : Inv c)
+    (bytes : List UInt8) (hroom : bytes.length ≤ ch.room) :
+    (readerEv eventOk ch c bytes true).1.broken = true ∧
+      ∀ r, getCaller (readerEv eventOk ch c bytes true).1.callers r = some .waiting →
+        r ∈ (readerEv eventOk ch c bytes true).1.permits := by
+  have hb := readerEv_eof_room eventOk bytes.length bytes (Nat.le_refl _) ch c hroom
+  exact ⟨hb, fun r hw => inv_broken_waiter _ (event_reader_keeps_invariant eventOk ch c h bytes true) hb r hw⟩
+
+/-- The death report (section 7) for a connection with an event sender: whenever its router can report a death,
+every caller has its outcome. -/
+theorem event_connection_death_report (eventOk : Frame → Bool) (ch : EvChan) (c : Conn) (h : Inv c)
+    (bytes : List UInt8) (eof : Bool) (k : BreakKind) (hk : (readerEv eventOk ch c bytes eof).1.cause = some k) :
+    (readerEv eventOk ch c bytes eof).1.broken = true ∧
+      ∀ r, getCaller (readerEv eventOk ch c bytes eof).1.callers r = some .waiting →
+        r ∈ (readerEv eventOk ch c bytes eof).1.permits := by
+  have hi := event_reader_keeps_invariant eventOk ch c h bytes eof
+  have hb : (readerEv eventOk ch c bytes eof).1.broken = true := by
+    cases hb : (readerEv eventOk ch c bytes eof).1.broken with
+    | true => rfl
+    | false => have := hi.map.alive hb; rw [hk] at this; cases this
+  exact ⟨hb, fun r hw => inv_broken_waiter _ hi hb r hw⟩
+
+/-- THE EXCEPTION IS REAL (`eof_always_breaks` is FALSE for a connection whose event consumer has stopped): one slot,
+never drained; two events, the answer of request 0, then the peer closes. The reader is parked on the second event:
+the router has not ended, request 0 still waits, its answer and the EOF are unread. Only a consumer that makes room -
+or the keep-alive timeout, if keep-alive is configured - ends this (observed on the real router by the
+`conne <wc>/2` cases). -/
+theorem eof_does_not_break_a_parked_reader :
+    let ok : Frame → Bool := fun f => f.opcode == 0x0C
+    let c := run Conn.init [.submit, .writerTake]
+    let ev : Frame := ⟨0, -1, 0x0C, [1]⟩
+    let r := readerEv ok ⟨false, 1⟩ c (encode ev ++ encode ev ++ encode ⟨0, 0, 0x08, [7]⟩) true
+    r.1.broken = false ∧ getCaller r.1.callers 0 = some .waiting ∧ r.2.2 = ⟨false, 0⟩ := by decide +kernel
 
 /-! ## 6. the keepaliver (`Model/ConnIO.lean` `kaTurn`) -/
 
@@ -992,5 +1089,64 @@ example :
     (Exec.run .default false .quorum plan outs).attempts = [⟨0, .quorum⟩] := by decide
 
 end retry
+
+/-! ## 9. re-established connections: the reconnect policies never stop the refiller (`Model/PoolReconnect.lean`)
+
+The pool's refiller asks its reconnect-policy session for the delay before every refill attempt
+(`connection_pool.rs` `PoolRefiller::run`); a panic there ends the refiller task for good - the pool stays `Broken`
+and the node is never reconnected. -/
+
+section reconnect
+open ScyllaVerif.PoolReconnect
+
+/-- For EVERY history of fill outcomes the exponential session's `current_delay` stays within
+`[min_fill_backoff, max_fill_backoff]` … -/
+theorem reconnect_state_within_limits (c : ExpCfg) (hok : c.ok) (hist : List Fill) :
+    c.min ≤ expRun c hist ∧ expRun c hist ≤ c.max :=
+  expRun_bounds c hok.1 hok.2.1 hist
+
+/-- … so `get_delay` NEVER PANICS and answers a delay within the limits, for every history and every jitter
+multiplier of the configured range (also ranges above 1). -/
+theorem reconnect_get_delay_total (c : ExpCfg) (hok : c.ok) (hist : List Fill) (ppm : Nat)
+    (hj : c.jlo ≤ ppm ∧ ppm ≤ c.jhi) :
+    ∃ d, expGetDelay c (expRun c hist) ppm = some d ∧ c.min ≤ d ∧ d ≤ c.max := by
+  obtain ⟨hmin, hmax⟩ := reconnect_state_within_limits c hok hist
+  obtain ⟨r, hr, _⟩ := mulJ_some_of_le (expRun c hist) ppm c.max c.jhi hmax hj.2 hok.2.2.2
+  refine ⟨clamp r c.min c.max, ?_, clamp_bounds r c.min c.max hok.1⟩
+  simp [expGetDelay, hr]
+
+/-- A successful fill resets the back-off. -/
+theorem reconnect_success_resets (c : ExpCfg) (hist : List Fill) :
+    expRun c (hist ++ [.success]) = c.min := by
+  simp [expRun, List.foldl_append, expStep, expOnSuccess]
+
+/-- An error doubles the back-off up to the cap. -/
+theorem reconnect_error_doubles (c : ExpCfg) (hist : List Fill) :
+    expRun c (hist ++ [.error]) = Nat.min c.max (satDouble (expRun c hist)) := by
+  simp [expRun, List.foldl_append, expStep, expOnError]
+
+/-- The constant policy: no state, `get_delay = delay × jitter`, never a panic while that fits a `Duration`. -/
+theorem reconnect_constant_total (delay ppm jhi : Nat) (hj : ppm ≤ jhi) (hfit : delay * jhi / 1000000 ≤ durMax) :
+    constGetDelay delay ppm = some (delay * ppm / 1000000) := by
+  obtain ⟨r, hr, he⟩ := mulJ_some_of_le delay ppm delay jhi (Nat.le_refl _) hj hfit
+  rw [constGetDelay, hr, he]
+
+/-- non-vacuity (the production defaults 50 ms .. 10 s, jitter 0.85 .. 1.15): after 500 failed fills the state is the
+cap and the largest jittered delay is the cap. -/
+example :
+    let c : ExpCfg := ⟨50000000, 10000000000, 850000, 1150000⟩
+    expRun c (List.replicate 500 .error) = 10000000000 ∧
+    expGetDelay c (expRun c (List.replicate 500 .error)) 1150000 = some 10000000000 ∧
+    expGetDelay c (expRun c (List.replicate 500 .error ++ [.success])) 850000 = some 50000000 := by
+  decide +kernel
+
+/-- Counterexample OF A DEFECTIVE SESSION (`expOnErrorUncapped`: `on_fill_error` without the cap - documentation of
+what this section and the `rp` / `poolr` cases guard against, not a statement about the code): after 69 failed fills
+the state has saturated at `Duration::MAX`, and `get_delay` panics for every jitter multiplier above 1. -/
+example :
+    let cur := (List.replicate 69 ()).foldl (fun d _ => expOnErrorUncapped d) 50000000
+    cur = durMax ∧ mulJ cur 1000001 = none := by decide +kernel
+
+end reconnect
 
 end ScyllaVerif.Props.C10
